@@ -23,12 +23,12 @@ Definition model (c : case) : result ynode :=
 (* outside the part of yaml.v3's emitter that is assumed to round trip (Model/YamlTree.v block_unsafe_value) no
    prediction is made for the re-read tree *)
 Definition codec_unsafe_case (c : case) : bool :=
-  match model c with ROk y => codec_unsafe y | RErr _ => false end.
+  match model c with ROk y => codec_tolerated y | RErr _ => false end.
 
 Definition mismatch (c : case) : bool :=
   match model c, c_out c with
-  | ROk y, OOk out _ => negb (codec_unsafe y) && negb (ynode_eqb (content y) (content out))
-  | ROk y, OBad => negb (codec_unsafe y)
+  | ROk y, OOk out _ => negb (codec_tolerated y) && negb (ynode_eqb (content y) (content out))
+  | ROk y, OBad => negb (codec_tolerated y)
   | RErr e, OErr e' => negb (err_eqb e e')
   | _, _ => true
   end.
